@@ -228,6 +228,9 @@ class Consumer:
         self.pending = []  # [(inv, future)] in start order
         self.fail_at = set(fail_at)
         self.auto = False  # finish immediately (finish phase)
+        self.failing = set()
+        # odd consumer ids fail *inside* the returned future, even ones at the call
+        self.late_failure = bool(cid % 2) if isinstance(cid, int) else False
 
     def __call__(self, x):
         inv = self.n
@@ -237,6 +240,14 @@ class Consumer:
         if self.mode == "coro":
             return self._coro(inv, x)
         self.log.add("cs", self.cid, inv, x, self.log.now(), getattr(self.log, "ctx", None))
+        if inv in self.fail_at and self.mode == "fut" and self.late_failure:
+            # the returned future fails later, when the harness "finishes" the invocation
+            fut = asyncio.get_event_loop().create_future()
+            self.pending.append((inv, fut))
+            self.failing.add(inv)
+            if self.auto:
+                self.finish(len(self.pending) - 1)
+            return fut
         if inv in self.fail_at:
             ex = Boom(("c", self.cid, inv))
             self.log.add("cx", self.cid, inv, ex)
@@ -266,6 +277,13 @@ class Consumer:
         if not self.pending:
             return False
         inv, fut = self.pending.pop(j % len(self.pending))
+        if inv in self.failing:
+            ex = Boom(("c", self.cid, inv))
+            self.log.add("cx", self.cid, inv, ex)
+            if not fut.done():
+                fut.set_exception(ex)
+                fut.exception()  # mark retrieved: no "never retrieved" noise
+            return True
         self.log.add("cf", self.cid, inv, self.log.now())
         if not fut.done():
             fut.set_result(None)
